@@ -15,7 +15,53 @@ def _expected(text, tok):
         return float('-inf') if (tok['sign'] is not None and text[tok['sign']] == '-') else float('inf')
 
 
+def replay_setup(d):
+    """real setup_table_* + read_table_* on the miniature table with the model's row"""
+    import t2listing
+    repo = os.environ.get('PYTOUGH_REPO', '/repo')
+    path = os.path.join(repo, 'tests', 'listing', d['file'])
+    T = t2listing.t2listing
+    obj = T.__new__(T)
+    obj.filename = path; obj.encoding = 'latin-1'
+    obj._file = io.open(path, 'rb')
+    obj.detect_simulator()
+    obj._file.close()
+    rows, toks, kp, nkeys, kind = d['rows'], d['tokens'], d['keypos'], d['nkeys'], d['kind']
+    lines, first = cc.mini_table_lines(d['family'], kind, d['header'], d['between'], rows)
+    obj._file = cc.LineFile(lines)
+    obj._table, obj._tablenames, obj.title, obj.skip_tables = {}, [], 'C05 MINIATURE TABLE', []
+    try:
+        obj.setup_table(kind)
+    except Exception as ex:
+        return True, 'setup_table(%r) raised %s: %s' % (kind, type(ex).__name__, str(ex)[:100])
+    table = obj._table[kind]
+    order = list(range(len(rows)))
+    if d['family'] != 'AUTOUGH2':
+        order.sort(key=lambda i: cc.row_index_value(rows[i], toks[i][0]['start']))
+    want = []
+    for i in order:
+        nm = tuple(cc.fix_name(rows[i][p:p + 5]) for p in kp)
+        want.append(nm[0] if nkeys == 1 else nm)
+    if list(table.row_name) != want:
+        return True, 'row names after the real setup_table_%s: %r; repaired printed names: %r (rows %r)' % (
+            'AUTOUGH2' if obj.simulator == 'AUTOUGH2' else 'TOUGH2', list(table.row_name), want, [r[:40] for r in rows])
+    obj._file.seek(0)
+    try:
+        obj.read_table(kind)
+    except Exception as ex:
+        return True, 'read_table(%r) raised %s: %s' % (kind, type(ex).__name__, str(ex)[:100])
+    for pos, i in enumerate(order):
+        by_name, by_index = table[want[pos]], table[pos]
+        if by_name is None: return True, 'table[%r] is None' % (want[pos],)
+        for j, col in enumerate(table.column_name):
+            exp = _expected(rows[i].rstrip('\r\n'), toks[i][j]) if j < len(toks[i]) else 0.0
+            if not (by_name[col] == by_index[col] == exp):
+                return True, 'row %d column %s: by name %r, by index %r, printed %r' % (pos, col, by_name[col], by_index[col], exp)
+    return False, 'row names %r are the repaired printed names and name / index addressing agree' % (want,)
+
+
 def replay(d):
+    if d.get('mode') == 'setup': return replay_setup(d)
     import t2listing
     repo = os.environ.get('PYTOUGH_REPO', '/repo')
     path = os.path.join(repo, 'tests', 'listing', d['file'])
